@@ -58,7 +58,12 @@ func verifGapOK(gap string, delim *string, opts ScannerOptions) bool {
 			if i < 0 {
 				i = len(gap)
 			}
-			for _, c := range strings.TrimSpace(gap[2:i]) {
+			// the batch count is what strconv.Atoi accepts: digits with an optional sign
+			cnt := strings.TrimSpace(gap[2:i])
+			if len(cnt) > 1 && (cnt[0] == '+' || cnt[0] == '-') {
+				cnt = cnt[1:]
+			}
+			for _, c := range cnt {
 				if c < '0' || c > '9' {
 					return false
 				}
